@@ -283,6 +283,90 @@ fn check_short_circuit(t: &T) -> Option<(String, String)> {
     None
 }
 
+/// Is a wrong result of evaluating `t` under `st` exactly the known defect of baa's sparse
+/// `ArrayValue::is_equal` (it compares representations, not contents)? Evidence required: `t` is an
+/// equality of arrays that patronus evaluates to 0 although it holds, patronus evaluates BOTH operands to the
+/// right contents, and `is_equal` on those two values says "different".
+fn is_sparse_is_equal_defect(ctx: &mut Context, st: &SymbolValueStore, t: &T, env: &pvcore::evalref::Env) -> bool {
+    let T::Bin(Bin::Eq, a, b) = t else { return false };
+    if !matches!(a.ty(), Ty::Arr(..)) {
+        return false;
+    }
+    let (ae, be) = (a.build(ctx), b.build(ctx));
+    let (wa, wb) = (eval_ref(ctx, ae, env), eval_ref(ctx, be, env));
+    if wa != wb {
+        return false; // the equality does not hold: not a false negative
+    }
+    let ga = catch(|| eval_array_expr(ctx, st, ae));
+    let gb = catch(|| eval_array_expr(ctx, st, be));
+    match (ga, gb) {
+        (Ok(ga), Ok(gb)) => Val::A(baa_to_arr(&ga)) == wa && Val::A(baa_to_arr(&gb)) == wb && !ga.is_equal(&gb).unwrap_or(true),
+        _ => false,
+    }
+}
+
+/// Some(true): every failing configuration of `t` (plain evaluation and inner-node short circuit) is the
+/// sparse-is_equal defect; Some(false): some failure is something else; None: nothing fails
+fn only_sparse_is_equal_failures(t: &T) -> Option<bool> {
+    let T::Bin(Bin::Eq, a, _) = t else { return None };
+    if !matches!(a.ty(), Ty::Arr(..)) {
+        return None;
+    }
+    let mut any = false;
+    let mut ctx = Context::default();
+    let e = t.build(&mut ctx);
+    let syms = t.symbols();
+    let (asg, _) = assignments(&syms, EXH_BITS, ASSIGN_CAP);
+    for vals in asg.iter() {
+        let env = make_env(&mut ctx, &syms, vals);
+        let expected = eval_ref(&ctx, e, &env);
+        for dense in [false, true] {
+            let (st, _) = store_for(&mut ctx, &syms, vals, dense);
+            let ok = matches!(catch(|| eval_expr(&ctx, &st, e)), Ok(v) if baa_to_val(&v) == expected);
+            if !ok {
+                any = true;
+                if !is_sparse_is_equal_defect(&mut ctx, &st, t, &env) {
+                    return Some(false);
+                }
+            }
+        }
+    }
+    for inner in t.kids() {
+        if inner.is_leaf() {
+            continue;
+        }
+        let ie = inner.build(&mut ctx);
+        if ie == e || !nodes_of(&ctx, &[e]).contains(&ie) {
+            continue;
+        }
+        let mut outside = vec![];
+        syms_outside(t, inner, &mut outside);
+        let ity = inner.ty();
+        let ivals = value_alphabet(ity, ity.bits() <= 3, true);
+        let (asg, _) = assignments(&outside, 6, 64);
+        for iv in ivals.iter() {
+            for vals in asg.iter() {
+                let mut env = make_env(&mut ctx, &outside, vals);
+                env.insert(ie, iv.clone());
+                let expected = eval_ref(&ctx, e, &env);
+                let (mut st, _) = store_for(&mut ctx, &outside, vals, false);
+                match iv {
+                    Val::B(b) => st.define_bv(ie, &bv_to_baa(b)),
+                    Val::A(a) => st.define_array(ie, arr_to_baa(a, false)),
+                }
+                let ok = matches!(catch(|| eval_expr(&ctx, &st, e)), Ok(v) if baa_to_val(&v) == expected);
+                if !ok {
+                    any = true;
+                    if !is_sparse_is_equal_defect(&mut ctx, &st, t, &env) {
+                        return Some(false);
+                    }
+                }
+            }
+        }
+    }
+    if any { Some(true) } else { None }
+}
+
 /// descriptor of the failing set of a shrunk binary term (keeps distinct defects of one operator apart)
 fn failing_descriptor(min: &T) -> &'static str {
     if let T::Bin(_, a, b) = min {
@@ -329,8 +413,15 @@ pub fn check_term(t: &T, order: u64, rep: &Report, _count: bool) -> bool {
             let min = shrink(t, &|s| !s.contains_divrem() && check_once(s, true).is_some());
             let (class, what) = check_once(&min, true).unwrap_or_else(|| check_once(t, true).unwrap());
             let class = class.replace("|eq-operands", "");
-            let d = failing_descriptor(&min);
-            let sig = format!("C06|{}|{}|{}|{}", class, sig_shape(&min), wclass(operand_width(&min)), d);
+            let mut d = failing_descriptor(&min);
+            let mut shape = sig_shape(&min);
+            // one call site, one finding: whatever the operands look like, a false "different" from baa's
+            // sparse is_equal on operands that patronus evaluated correctly is the same defect
+            if (class == "value" || class == "shortcircuit-value") && only_sparse_is_equal_failures(&min) == Some(true) {
+                d = "content-equal-operands";
+                shape = "eq[arr]".to_string();
+            }
+            let sig = format!("C06|{}|{}|{}|{}", class, shape, wclass(operand_width(&min)), d);
             rep.violation(Violation { sig, what, case: json!({"term": min.to_string(), "found_in": t.to_string()}), order });
             false
         }
